@@ -100,14 +100,19 @@ func (b *box) close() error {
 	return err
 }
 
+// errReadInnerBox is returned when a box has no room for the header of a further
+// child. It is built once (see errReadFlags): the callers drop it and go on with
+// the next box, of which a file may hold any number.
+var errReadInnerBox = errors.Wrap(ErrBufLength, "readBox")
+
 func (b *box) readInnerBox() (inner box, next bool, err error) {
 	if b.remain < 8 {
 		return inner, false, nil
 	}
 
-	buf, err := b.Peek(16)
+	buf, err := b.Peek(8)
 	if err != nil {
-		return inner, false, errors.Wrap(ErrBufLength, "readBox")
+		return inner, false, errReadInnerBox
 	}
 	inner.reader = b.reader
 	inner.outer = b
@@ -120,6 +125,9 @@ func (b *box) readInnerBox() (inner box, next bool, err error) {
 	switch inner.size {
 	case 1:
 		// 1 means it's actually a 64-bit size, after the type.
+		if buf, err = b.Peek(16); err != nil {
+			return inner, false, errReadInnerBox
+		}
 		inner.size = int64(bmffEndian.Uint64(buf[8:16]))
 		inner.remain = int(inner.size)
 		if inner.size < 0 {
